@@ -261,8 +261,9 @@ class AbsFunc:
 
 
 class PropertyV:
-    def __init__(self, fget):
+    def __init__(self, fget, fset=None):
         self.fget = fget
+        self.fset = fset
 
 
 class StaticV:
